@@ -8,7 +8,7 @@
    (single clock: always both), the user's push/pop requests, and -- at coincident edges of
    the dual-clock FIFO -- which of the two possible values each synchroniser captures. *)
 From Coq Require Import NArith List Bool Arith.
-From Gatery Require Import FifoDefs FifoGray FifoProofs.
+From Gatery Require Import FifoDefs FifoGray FifoProofs FifoTxDefs FifoTxProofs.
 Import ListNotations.
 Open Scope N_scope.
 
@@ -81,7 +81,43 @@ Theorem cdc_sample_two_outcomes : forall k p (b : bool) s, p < cmod k ->
 Proof. exact cdc_sample_two_outcomes_proof. Qed.
 Print Assumptions cdc_sample_two_outcomes.
 
+(* scl::TransactionalFifo, single clock (FifoTxDefs.v): for every depth, latency and sequence
+   of push / commit(cutoff) / rollback / pop / popCommit / popRollback, as long as the user
+   never commits and rolls back in one cycle and a cutoff only removes pushes of the open
+   transaction (tev_ok), the interface behaves as a queue with checkpoints:
+   only committed items are offered, in commit order (peek = Q[r]); rolled back pushes
+   vanish, rolled back pops are offered again; uncommitted pops still occupy space. *)
+Theorem txfifo_refines_checkpoint_queue : forall c evs,
+  cq_spec (depth c) (mkCq [] 0 []) (fst (trun c (tinit c) evs)).
+Proof. exact txfifo_refines_checkpoint_queue_proof. Qed.
+Print Assumptions txfifo_refines_checkpoint_queue.
+
 (* ---------------- non-vacuity ---------------- *)
+Definition te (pr : bool) (d : N) (cm : bool) (cut : N) (rb po pcm prb : bool) := mkTev pr d cm cut rb po pcm prb.
+Definition tx_c := mkCfg 2 1 false 0 0.
+Definition tx_evs :=
+  [te true 1 false 0 false false false false;   (* push 1, staged *)
+   te true 2 false 0 false false false false;   (* push 2, staged *)
+   te false 0 false 0 true false false false;   (* roll both back *)
+   te true 3 false 0 false false false false;
+   te true 4 false 0 false false false false;
+   te true 5 true 1 false false false false;    (* push 5 and commit, cutting 5 off again *)
+   te false 0 false 0 false true false false;   (* pop 3 (uncommitted) *)
+   te false 0 false 0 false true false false;   (* pop 4 *)
+   te false 0 false 0 false false false true;   (* roll the pops back *)
+   te false 0 false 0 false true true false;    (* pop 3 and commit *)
+   te false 0 false 0 false true true false;    (* pop 4 and commit *)
+   te false 0 false 0 false false false false].
+Example tx_example :
+  map (fun oe => (to_empty (fst oe), to_peek (fst oe))) (skipn 6 (fst (trun tx_c (tinit tx_c) tx_evs)))
+  = [(false, Some 3); (false, Some 4); (true, Some 5); (false, Some 3); (false, Some 4); (true, Some 5)].
+Proof. vm_compute. reflexivity. Qed.
+(* the environment obligations hold along this run (so cq_spec's premises are satisfiable) *)
+Fixpoint tev_ok_all (q : cq) (tr : list (tobs * tevent)) : Prop :=
+  match tr with [] => True | (o, e) :: r => tev_ok q o e /\ tev_ok_all (cq_next q o e) r end.
+Example tx_example_env_ok : tev_ok_all (mkCq [] 0 []) (fst (trun tx_c (tinit tx_c) tx_evs)).
+Proof. vm_compute. repeat split; intros; auto. Qed.
+
 Definition ev (pe po pr : bool) (d : N) (pq : bool) : event := mkEv pe po pr d pq false false.
 
 (* single clock, depth 2, latency 2: three pushes (third refused: full), then three pops
